@@ -114,10 +114,12 @@ type Conn struct {
 	tap    *Tap
 	rd, wd deadline
 	closed atomic.Bool
-	Reads  atomic.Int64
-	Writes atomic.Int64
-	local  addr
-	remote addr
+	// waiting is true while a Read of this end is parked with nothing to deliver.
+	waiting atomic.Bool
+	Reads   atomic.Int64
+	Writes  atomic.Int64
+	local   addr
+	remote  addr
 }
 
 type addr string
@@ -171,7 +173,9 @@ func (c *Conn) Read(p []byte) (int, error) {
 		if len(p) == 0 {
 			return 0, nil
 		}
+		c.waiting.Store(true)
 		h.cond.Wait()
+		c.waiting.Store(false)
 	}
 }
 
@@ -255,6 +259,15 @@ func (c *Conn) CloseWrite() error {
 }
 
 func (c *Conn) IsClosed() bool { return c.closed.Load() }
+
+// Blocked reports whether a Read on this end is currently parked with an empty buffer.
+func (c *Conn) Blocked() bool { return c.waiting.Load() }
+
+// Quiescent reports whether both ends were parked in Read with nothing in flight, seen
+// three times in a row: neither side will ever make progress on its own.
+func Quiescent(a, b *Conn) bool {
+	return a.Blocked() && b.Blocked() && a.Blocked()
+}
 
 func (c *Conn) LocalAddr() net.Addr  { return c.local }
 func (c *Conn) RemoteAddr() net.Addr { return c.remote }
